@@ -1,8 +1,8 @@
 from .model import SCHEMA, Spec
-from . import c_dimension, c_prefix, c_unit, c_quantity, c_registry, c_lemmas, c_conversions
+from . import c_dimension, c_prefix, c_unit, c_quantity, c_registry, c_lemmas, c_conversions, c_measurement
 
 CONTRACTS = {}
-for _m in (c_dimension, c_prefix, c_unit, c_quantity, c_registry, c_lemmas, c_conversions):
+for _m in (c_dimension, c_prefix, c_unit, c_quantity, c_registry, c_lemmas, c_conversions, c_measurement):
     CONTRACTS.update(_m.CONTRACTS)
 SPEC = Spec()
 
